@@ -66,6 +66,10 @@ for r in ["hp", "hpd", "he", "lfrc"]:
 for r in RECL_ALL:
     if r != "stamp":
         _c01_thorough.append(run("reclaim", "proto_" + r, c=3, opt={"ops": 0x68, "m": 1}, weight=2))
+    _c01_thorough.append(run("reclaim", "proto_" + r, c=2 if r == "stamp" else 3, opt={"fixed": 1, "cells": 2}, weight=2))
+# adversarial family "recycle behind a reader's back" (seed C01: lost reference count increment with type-stable memory)
+for r in ["lfrc_tl", "lfrc", "hp", "qsbr", "ebr"]:
+    _c01_quick.append(run("reclaim", "proto_" + r, c=3, opt={"fixed": 1, "cells": 2}, weight=1.0))
 PLAN["C01"] = {
     "quick": _c01_quick, "thorough": _c01_thorough, "budget_s": {"quick": 170, "thorough": 1500},
     "rule": "client programs: T threads x m operations over {acquire+deref, acquire+hold across later operations, acquire_if_equal, copy/assign then reset the original, "
